@@ -104,6 +104,13 @@ CLAIMED["C20"] = ("coverage-guided fuzzing (libFuzzer + ASan/UBSan) of three in-
                   "campaigns are reproducible only through their saved artefacts. The affinity parser is driven "
                   "directly because the pinned build is configured without --enable-affinity.")
 
+CLAIMED["C14"] = sync_entry("call automaton per user-pool unit handle (create_unit once per association, "
+                            "free_unit once at its end, never a push/free of a dead or foreign handle), "
+                            "unit<->work-unit translation checked by running units while other streams create "
+                            "and destroy units in the same hash bucket, creates == frees after finalize, "
+                            "exactly-once execution under arbitrary pop policies and a user-defined scheduler",
+                            "DESIGN.md section 5 (C14)")
+
 NOT_BUILT = "check not built yet in this session (see DESIGN.md section 10 for the build order)"
 
 
